@@ -150,6 +150,9 @@ namespace Dune {
           eigenvalues[0] = q + 2 * p * cos(phi + (2*pi/3));
           eigenvalues[1] = 3 * q - eigenvalues[0] - eigenvalues[2];     // since trace(matrix) = eig1 + eig2 + eig3
 
+          // for (nearly) repeated eigenvalues round-off can violate the ordering by a few ulp
+          std::sort(eigenvalues.begin(), eigenvalues.end());
+
           return r;
         }
       }
